@@ -321,6 +321,48 @@ func (c *Ctx) escMatchOne(res *Result, fn *ssa.Function, call *ssa.Call, m strin
 					}
 				}
 			}
+			// after an escaped look-alike the search goes on: from the "is escaped" side the next event is
+			// another search, not the end of the loop (a group further right would survive)
+			for _, l := range naturalLoops(fn) {
+				if !l.body[call.Block()] {
+					continue
+				}
+				allInstrs(fn, func(in2 ssa.Instruction) {
+					iff, ok := in2.(*ssa.If)
+					if !ok || !l.body[iff.Block()] {
+						return
+					}
+					cond, neg := unwrapNot(iff.Cond)
+					ec, ok := cond.(*ssa.Call)
+					if !ok || !isEscapedLike(staticFn(&ec.Call)) || len(ec.Call.Args) != 2 || !derived[ec.Call.Args[1]] {
+						return
+					}
+					side := 0
+					if neg {
+						side = 1
+					}
+					// breadth-first from the escaped side: leaving the loop before reaching the search again is a violation
+					seenB := map[*ssa.BasicBlock]bool{}
+					stack := []*ssa.BasicBlock{iff.Block().Succs[side]}
+					for len(stack) > 0 {
+						b := stack[len(stack)-1]
+						stack = stack[:len(stack)-1]
+						if seenB[b] {
+							continue
+						}
+						seenB[b] = true
+						if !l.body[b] {
+							problems = append(problems, fmt.Sprintf("when the match at the found position is an escaped literal the loop is left (%s) instead of searching on: every real flag group to its right stays in the generated regex", c.P.InstrPos(iff)))
+							return
+						}
+						if b == call.Block() {
+							continue
+						}
+						stack = append(stack, b.Succs...)
+					}
+				})
+				break
+			}
 			sort.Strings(problems)
 			if len(problems) > 0 {
 				res.bad(key, pos, strings.Join(uniq(problems), "; "))
@@ -784,6 +826,25 @@ func (c *Ctx) RuleSanitize() *Result {
 		}
 		if printAfter {
 			problems = append(problems, "the regex is printed again after the flag groups were removed: the printer re-inserts them")
+		}
+		// a pass rewrites every occurrence: no strings.Replace / bytes.Replace with a count
+		for _, st := range steps {
+			sf := staticFn(&st.call.Call)
+			if sf == nil {
+				continue
+			}
+			allInstrs(sf, func(in ssa.Instruction) {
+				call, ok := in.(*ssa.Call)
+				if !ok {
+					return
+				}
+				f := staticCallee(&call.Call)
+				if (isFn(f, "strings", "Replace") || isFn(f, "bytes", "Replace")) && len(call.Call.Args) == 4 {
+					if n, isC := constInt(call.Call.Args[3]); !isC || n >= 0 {
+						problems = append(problems, fmt.Sprintf("%s replaces only a limited number of occurrences (%s): the second \\s class, quote or backslash of an expression is left as it was", load.FnName(sf), c.P.InstrPos(call)))
+					}
+				}
+			})
 		}
 		// a printing pass hands back what the printer printed, on every path
 		for _, st := range steps {
